@@ -760,6 +760,7 @@ def levelsets_section(ck):
     from nipy.algorithms.graph.field import Field
     rng = ck.rng("levelsets")
     n = ck.n(150, 1500)
+    terms, meta = [], []
     for k in range(n):
         V = int(rng.integers(1, 11))
         dens = rng.choice([0.2, 0.4, 0.7])
@@ -812,6 +813,15 @@ def levelsets_section(ck):
             werr = None
         except (AttributeError, IndexError) as e:
             werr = type(e).__name__
+        # correspondence with the Coq model of custom_watershed (column refdim, exact integers)
+        cth = "None" if th == -np.inf else "(Some %s)" % cz(int(th))
+        if werr is None:
+            terms.append("ws_eqb (custom_watershed %s %s %s) (Some (%s, %s))" % (cedges(E), czl(col), cth, cnatl(widx), czl(wlab)))
+            meta.append(("custom_watershed/model-vs-impl", "custom_watershed(refdim=%d, th=%s) on V=%d edges=%s column %s: impl idx %s label %s" % (refdim, th, V, E, col, widx, wlab),
+                         dict(rp, idx=widx, label=wlab)))
+        elif werr == "AttributeError":
+            terms.append("ws_eqb (custom_watershed %s %s %s) None" % (cedges(E), czl(col), cth))
+            meta.append(("custom_watershed/model-vs-impl", "custom_watershed(th=%s) raises on V=%d edges=%s column %s but the model returns a labelling" % (th, V, E, col), dict(rp, impl="raises")))
         if werr is not None:
             if not any(above):
                 ck.fail("custom_watershed/raises/no-vertex-above-threshold", "custom_watershed(th=%s) raises %s when no vertex reaches the threshold" % (th, werr), rp)
@@ -856,6 +866,15 @@ def levelsets_section(ck):
             berr = None
         except (AttributeError, IndexError) as e:
             berr = type(e).__name__
+        # correspondence with the Coq model (the argsort order, an oracle value, is recomputed on the same float64 numbers)
+        if berr is None:
+            amask = np.array(above)
+            sub = data[amask][:, refdim].astype(np.float64)
+            order = [int(np.nonzero(amask)[0][j]) for j in np.argsort(- sub)]
+            terms.append("bif_order_ok %s %s %s && bif_eqb (threshold_bifurcations %s %s %s %s) (Some (%s, %s, %s))" % (
+                czl(col), cth, cnatl(order), cedges(E), czl(col), cth, cnatl(order), cnatl(bidx), cnatl(bpar), czl(blab)))
+            meta.append(("threshold_bifurcations/model-vs-impl", "threshold_bifurcations(refdim=%d, th=%s) on V=%d edges=%s column %s (visit order %s): impl idx %s parent %s label %s" % (refdim, th, V, E, col, order, bidx, bpar, blab),
+                         dict(rp, order=order, idx=bidx, parent=bpar, label=blab)))
         if berr is not None:
             if not any(above):
                 ck.fail("threshold_bifurcations/raises/no-vertex-above-threshold", "threshold_bifurcations(th=%s) raises %s when no vertex reaches the threshold" % (th, berr), rp)
@@ -1005,7 +1024,13 @@ def levelsets_section(ck):
                 if [x > 0 for x in got] != ismax:
                     ck.fail("local_maxima/depth-positive-iff-no-higher-neighbour/%s-dtype" % dk, "local_maxima(th=%s) on V=%d edges=%s %s field %s gives %s; local maxima are %s" % (th, V, E, dt, col, got, ismax),
                             dict(rp, got=got, expected_maxima=ismax))
-    ck.section("levelsets", cases=n, dtype_cases=nd)
+    ck.section("levelsets", cases=n, dtype_cases=nd, watershed_model_terms=len(terms))
+    if ck.build is not None and ck.build.ok:
+        res = ck.coq_bools(HDR, terms, name="levelsets")
+        ck.cov["traces_validated_against_impl"] += len(res)
+        for ok, (sig, what, replay) in zip(res, meta):
+            if not ok:
+                ck.fail(sig, "model and implementation disagree: " + what, replay)
 
 
 def run(ck):
